@@ -18,6 +18,15 @@ CLAIMED = {
  "C05": ("count/exhaustion lock invariants and postconditions on allocator.IPAllocator (ghost cardinalities), VCs discharged by z3/cvc5",
          "Deductive proof that allocatedCount equals the cardinality of both maps after every operation, that exhaustion is reported only when every index is taken, and that Stats returns those figures; one configuration-dependent defect (pools of 2^63+ prefixes) is a recorded known finding.",
          "Same trusted base as C01; cardinalities are ghost counters updated at map insert/delete.", "DESIGN.md §5 C05"),
+ "C08": ("attribute-level postconditions on radius.Client.SendAccounting through an assumed model of the layeh/radius setters (ghost record of attributes written), VCs discharged by z3/cvc5",
+         "Deductive proof of one clause of C08: for every 64-bit counter value the Acct-*-Octets attribute holds the value mod 2^32 and Acct-*-Gigawords the value div 2^32, and session id / user name / NAS id / class / framed IP / status are copied from the request; a defect (identifier silently dropped when it does not fit an attribute) was found and repaired. The Start/Stop ordering, retry, durability and crash clauses of C08 are NOT decided (listed as undecided).",
+         "Trusted: VC generator, solvers, assumed contracts of the layeh/radius attribute setters and radius.Exchange.", "DESIGN.md §5 C08"),
+ "C12": ("contracts on IPAllocator.MarshalJSON/UnmarshalJSON (assumed encoding/json and big.Int text round-trip models), SetAllocation, and DistributedAllocator Allocate/Release/handleRemoteChange/loadAllocations with the store as nondeterministic-error interface contracts; VCs discharged by z3/cvc5",
+         "Deductive proof (session mode) that UnmarshalJSON establishes the allocator invariant for every input document and reproduces the document's allocation map (serialise->restore round trip), that DistributedAllocator.Allocate/Release leave memory and store in agreement on success and on store failure, and that reload/remote-apply preserve the invariant. Three genuine defects were found by these obligations and repaired. Lease mode (EpochBitmapAllocator) is under trusted frames only: its reload behaviour is undecided.",
+         "Trusted: VC generator, solvers, assumed JSON/big.Int models, AllocationStore calls atomic (error => no effect), 'mode seq' for the inner allocator (reachable only under da.mu).", "DESIGN.md §5 C12"),
+ "C15": ("uninterpreted-hash ghost state (absorb/sum over byte sequences) with the RFC 5176 authenticator formula written independently in the spec; gating preconditions on the handlers at their call sites in receiveLoop; response bytes observed through a ghost snapshot of WriteToUDP; VCs discharged by z3/cvc5",
+         "Deductive proof for the CoA/Disconnect listener: verifyRequestAuthenticator returns true iff the Request Authenticator verifies (16-byte comparison loop included); handlers are invoked only for complete, authentic datagrams whose attributes parse, and such a datagram produces exactly one response; the response carries code, identifier, length, attributes and a Response Authenticator that verifies against the request. One defect repaired (Reply-Message length), one recorded as known finding (default ACK without handler, pinned by an existing test).",
+         "Trusted: VC generator, solvers, MD5 as an uninterpreted function (no cryptographic claim), assumed models of net.UDPConn Read/Write, callbacks assumed not to touch the socket/buffer.", "DESIGN.md §5 C15"),
  "C09": ("zero-annotation safety sweep: index/slice/nil/div/make obligations + loop variants with Houdini-inferred invariants over every function reachable from the network-facing decoders, counterexamples replayed on the real code",
          "Deductive proof of absence of run-time panics and of loop termination measures for the obligations recorded in spec/C09.baseline.json (about 1700 obligations, 117 fully clean functions) for all byte strings and all receiver states; obligations that need caller-side contracts are listed as undecided and not claimed.",
          "Trusted: VC generator, solvers, assumed library contracts (encoding/binary, net, hash, zap...), third-party decoders assumed not to panic, heap havoc at un-contracted calls and lock acquisitions.", "DESIGN.md §5 C09"),
